@@ -1006,6 +1006,12 @@ def cases(tier, rnd):
     # tiny negative values that must be floored before the log)
     for g in ((1000,) if tier == "quick" else (1000, 1001, 1024)):
         out.append(_cfg(rnd, n=3, G=g, N=2, num_iters=2, proposal=rnd.choice(["semi-adapted", "fully-adapted"])))
+        # the same with deep-coverage PyClone grids (sharply peaked rows: most of the transform's output is round-off)
+        deep = [[f"m{m}", "s0", 200 - a, a, 1, 1, 2] for m, a in enumerate((95, 60, 30))]
+        c = _cfg(rnd, kind="tsv", rows=deep, density="binomial", precision=400.0, N=2, num_iters=2, thr=0.5, op="0", sub=0.0,
+                 proposal=rnd.choice(["semi-adapted", "fully-adapted"]))
+        c["G"], c["n"], c["S"] = g + 1, 3, 1
+        out.append(c)
     # malformed / API-only: compared with the model's guards, never judged
     out += [_cfg(rnd, thin=0), _cfg(rnd, thin=0, burnin=2, n=1), _cfg(rnd, N=0), _cfg(rnd, N=0, n=3, burnin=2, op="1/2"),
             _cfg(rnd, pf=0), _cfg(rnd, num_iters=0), _cfg(rnd, num_iters=0, burnin=0)]
